@@ -184,6 +184,12 @@ def pfok_cmds(rng, tier, params):
         for c in combos:
             vals = [tapes[t] if tapes[t] is not None else rng.getrandbits(8 * mo) for t in c]
             out.append("pfok name=%s xa=%s xb=%s ua=%s ub=%s cls=%s" % (name, hx(vals[0], mo), hx(vals[1], mo), hx(vals[2], mo), hx(vals[3], mo), "/".join(c)))
+    # shared-key lengths that are not a multiple of 8 (pfok.h admits every n < l; the standard sets all use 256)
+    P = params["test"]
+    mo = (P["r"] + 7) // 8
+    for nb in (255, 250, 13, 1, 9) if tier == "quick" else (255, 254, 250, 249, 248, 100, 13, 9, 8, 7, 1):
+        vals = [rng.getrandbits(8 * mo) for _ in range(4)]
+        out.append("pfok name=test n=%d xa=%s xb=%s ua=%s ub=%s cls=n=%d" % (nb, hx(vals[0], mo), hx(vals[1], mo), hx(vals[2], mo), hx(vals[3], mo), nb))
     return out
 
 
